@@ -181,7 +181,11 @@ def trace_lines(trace, tags):
     out = []
     for tag, rest in trace:
         if tag in tags:
-            out.append(tag + " " + rest.split(" #")[0].rstrip())
+            rest = rest.split(" #")[0].rstrip()
+            if tag == "RNG":
+                # the draws (bound, value) in order; reseeds are checked by the intrinsic oracle
+                rest = " ".join(w for w in rest.split() if w != "R")
+            out.append(tag + " " + rest)
     return out
 
 
